@@ -846,10 +846,11 @@ def _skippable(st):
     return False
 
 
-def _inline_read_aliases(fn):
+def _inline_read_aliases(fn, strict=False):
     """``v = self.attr[0]`` (a plain read chain, assigned once at the top level of the body): every use of ``v`` that is
     reached from the assignment without any statement that could write an attribute or an item is replaced by the read
-    itself; when all uses are, the assignment goes.  Views only (rules name ``self.denpoly[0]``, not a local)."""
+    itself; when all uses are, the assignment goes.  ``strict`` (canonical forms): the first use must not come after
+    anything that can raise, so that the read fails where it failed."""
     def read_chain(e):
         if isinstance(e, ast.Call) and isinstance(e.func, ast.Name) and e.func.id == "len" and len(e.args) == 1 and not e.keywords:
             e = e.args[0]            # the size of a container that nothing on the way writes to
@@ -876,8 +877,12 @@ def _inline_read_aliases(fn):
             root = st.value.args[0] if isinstance(st.value, ast.Call) else st.value
             while isinstance(root, (ast.Attribute, ast.Subscript)):
                 root = root.value
-            if stored.get(v, 0) == 1 and v not in params and v not in _captured_names(fn) \
-                    and (root.id in params or root.id == "self") and stored.get(root.id, 0) == 0 \
+            root_ok = (root.id in params or root.id == "self") and stored.get(root.id, 0) == 0
+            if not root_ok and stored.get(root.id, 0) == 1 and root.id not in params and root.id not in _captured_names(fn):
+                # a local bound once, at this level, before the read
+                root_ok = any(isinstance(s_, ast.Assign) and len(s_.targets) == 1 and isinstance(s_.targets[0], ast.Name)
+                              and s_.targets[0].id == root.id for s_ in body[:i])
+            if stored.get(v, 0) == 1 and v not in params and v not in _captured_names(fn) and root_ok \
                     and not any(_count_loads(s_, v) for s_ in body[:i]):
                 total = _count_loads(fn, v)
                 replaced = 0
@@ -914,6 +919,10 @@ def _inline_read_aliases(fn):
                             return False
                         if not _skippable(s_):
                             return False
+                        if strict and replaced == 0 and not (
+                                isinstance(s_, ast.Assign) and all(isinstance(t_, ast.Name) for t_ in s_.targets)
+                                and _movable_value(s_.value)):
+                            return False        # the read would move past something that can raise
                     return True
                 descend(body, i + 1)
                 if replaced == total and total > 0:
@@ -2889,6 +2898,10 @@ def canonical_ast(fn, helpers, methods=None, hier=None, segment=False):
     ast.fix_missing_locations(f)
     f.body = docstring_free(f.body)
     _private_list_resets(f)
+    if not segment:
+        for _ in range(3):
+            if not _inline_read_aliases(f, strict=True):
+                break
     _ssa_toplevel(f)
     from .webs import split_webs
     split_webs(f)
